@@ -9,13 +9,13 @@
 (*   LinkedControl    control hand-over between inputs and one output          *)
 (* This module only states the conjunction (for Node.tla); a module that uses  *)
 (* several convenience parameter kinds behaves as the interleaving.            *)
-CONSTANTS Members, Vals, HwMax, HwModes,                \* LinkedStruct
+CONSTANTS Members, Vals, HwMax, HwModes, Excs,                \* LinkedStruct
           Tables, Shapes, Modes, Xs,                  \* LinkedFloatEnum
-          Kinds, Lo, Hi, PVals, LVals, ForbSets, Inits,\* LinkedLimits
+          Kinds, Lo, Hi, PVals, LVals, ForbSets, HookExcs, Inits,\* LinkedLimits
           Layouts                               \* LinkedControl
-VARIABLES hwmode, shw, mem, str, sok,
+VARIABLES hwmode, exc, shw, mem, str, merr, serr, sok,
           tab, shape, mode, idx, fhw, req, fval, flast,
-          kind, forb, lo, hi, lval, llast,
+          kind, forb, hexc, lo, hi, lval, llast,
           lay, active, cby, foreign
 
 S == INSTANCE LinkedStruct WITH hw <- shw, ok <- sok
@@ -24,9 +24,9 @@ F == INSTANCE LinkedFloatEnum WITH tab <- tab, shape <- shape, mode <- mode, idx
 L == INSTANCE LinkedLimits WITH val <- lval, last <- llast
 C == INSTANCE LinkedControl
 
-sv == <<hwmode, shw, mem, str, sok>>
+sv == <<hwmode, exc, shw, mem, str, merr, serr, sok>>
 fv == <<tab, shape, mode, idx, fhw, req, fval, flast>>
-lv == <<kind, forb, lo, hi, lval, llast>>
+lv == <<kind, forb, hexc, lo, hi, lval, llast>>
 cv == <<lay, active, cby, foreign>>
 
 Init == S!SInit /\ F!FInit /\ L!LInit /\ C!CInit
@@ -36,7 +36,7 @@ Next == \/ S!SNext /\ UNCHANGED <<fv, lv, cv>>
         \/ C!CNext /\ UNCHANGED <<sv, fv, lv>>
 Spec == Init /\ [][Next]_<<sv, fv, lv, cv>>
 
-Consistent == /\ S!Agree
+Consistent == /\ S!AgreeShown
               /\ F!ShowsIndexValue
               /\ C!AtMostOne /\ C!NamesTheActive /\ C!ForeignIntact
 ControlFrame == C!HandOver /\ C!Frame
